@@ -188,3 +188,101 @@ Proof.
   destruct (if N.eqb sn 0 then Some false else _) as [[|]|]; try reflexivity.
   rewrite H1, H2. unfold ratio_reached. rewrite H3. reflexivity.
 Qed.
+
+(* ------------------------------------------------------------------ COMPLETENESS of the scan *)
+(* [walk keep rel t p t']: [t'] is the node at path [p] reached from the node [t] at
+   path [rel] by descending through directories that are not in the keep set (the
+   scan never enters a kept directory, and a symbolic link has no children) *)
+Inductive walk (keep : list rpath) : rpath -> tree -> rpath -> tree -> Prop :=
+| W_here rel t : walk keep rel t rel t
+| W_down rel cs n c p t' :
+    in_keep keep rel = false -> In (n, c) cs -> walk keep (rel ++ [n]) c p t' ->
+    walk keep rel (Dir cs) p t'.
+
+Lemma scan_children_files keep rel cs n c p :
+  In (n, c) cs -> In p (files_q (scan keep false (rel ++ [n]) c)) -> In p (files_q (scan_children keep rel cs)).
+Proof.
+  induction cs as [|[m d] rest IH]; intros Hin Hp; [destruct Hin|].
+  cbn [scan_children]. unfold merge. cbn [files_q]. apply in_or_app.
+  destruct Hin as [Heq|Hin]; [injection Heq as -> ->; left; exact Hp|right; apply IH; assumption].
+Qed.
+
+Lemma scan_children_dirs keep rel cs n c p :
+  In (n, c) cs -> In p (dirs_q (scan keep false (rel ++ [n]) c)) -> In p (dirs_q (scan_children keep rel cs)).
+Proof.
+  induction cs as [|[m d] rest IH]; intros Hin Hp; [destruct Hin|].
+  cbn [scan_children]. unfold merge. cbn [dirs_q]. apply in_or_app.
+  destruct Hin as [Heq|Hin]; [injection Heq as -> ->; left; exact Hp|right; apply IH; assumption].
+Qed.
+
+Lemma scan_dir_files keep is_root rel cs :
+  in_keep keep rel = false -> files_q (scan keep is_root rel (Dir cs)) = files_q (scan_children keep rel cs).
+Proof. intros Ek. rewrite scan_dir, Ek. cbn zeta. destruct (needed _ || is_root); reflexivity. Qed.
+
+Lemma scan_dir_dirs_incl keep is_root rel cs p :
+  in_keep keep rel = false -> In p (dirs_q (scan_children keep rel cs)) ->
+  In p (dirs_q (scan keep is_root rel (Dir cs))).
+Proof.
+  intros Ek Hp. rewrite scan_dir, Ek. cbn zeta. destruct (needed _ || is_root); [exact Hp|].
+  cbn [dirs_q]. apply in_or_app. left. exact Hp.
+Qed.
+
+(* every regular file the scan can reach and that is not kept is queued *)
+Lemma files_q_complete keep rel t p sz :
+  walk keep rel t p (File sz) -> in_keep keep p = false ->
+  forall is_root, In p (files_q (scan keep is_root rel t)).
+Proof.
+  intros Hw. remember (File sz) as leaf eqn:El. induction Hw as [rel t|rel cs n c p t' Ek Hin Hw IH]; intros Hk is_root.
+  - subst t. cbn. rewrite Hk. left. reflexivity.
+  - rewrite (scan_dir_files _ _ _ _ Ek). eapply scan_children_files; [exact Hin|]. apply IH; assumption.
+Qed.
+
+(* every directory the scan can reach (other than the scan root), that is not kept and
+   in which nothing is needed, is queued *)
+Lemma dirs_q_complete keep rel t p cs' :
+  walk keep rel t p (Dir cs') -> in_keep keep p = false ->
+  needed (scan keep false p (Dir cs')) = false ->
+  forall is_root, (is_root = true -> p <> rel) -> In p (dirs_q (scan keep is_root rel t)).
+Proof.
+  intros Hw. remember (Dir cs') as node eqn:En.
+  induction Hw as [rel t|rel cs n c p t' Ek Hin Hw IH]; intros Hk Hn is_root Hroot.
+  - subst t. destruct is_root; [exfalso; apply Hroot; reflexivity|].
+    destruct (queued_dir_not_needed keep cs' rel Hk) as [H|H]; [exact H|congruence].
+  - apply scan_dir_dirs_incl; [exact Ek|]. eapply scan_children_dirs; [exact Hin|].
+    apply IH; try assumption. discriminate.
+Qed.
+
+(* a reachable symbolic link or kept entry makes every directory above it needed *)
+Lemma scan_children_needed keep rel cs n c :
+  In (n, c) cs -> needed (scan keep false (rel ++ [n]) c) = true -> needed (scan_children keep rel cs) = true.
+Proof.
+  induction cs as [|[m d] rest IH]; intros Hin Hp; [destruct Hin|].
+  cbn [scan_children]. unfold merge. cbn [needed]. apply orb_true_iff.
+  destruct Hin as [Heq|Hin]; [injection Heq as -> ->; left; exact Hp|right; apply IH; assumption].
+Qed.
+
+Lemma needed_propagates keep rel t p t' :
+  walk keep rel t p t' -> (forall r, needed (scan keep false p t') = true -> needed (scan keep r p t') = true) ->
+  needed (scan keep false p t') = true ->
+  forall is_root, needed (scan keep is_root rel t) = true.
+Proof.
+  intros Hw. induction Hw as [rel t|rel cs n c p t' Ek Hin Hw IH]; intros Hr Hn is_root.
+  - apply Hr. exact Hn.
+  - rewrite scan_dir, Ek. cbn zeta.
+    assert (Hc : needed (scan_children keep rel cs) = true).
+    { eapply scan_children_needed; [exact Hin|]. apply IH; assumption. }
+    rewrite Hc. cbn. exact Hc.
+Qed.
+
+Lemma reachable_symlink_needed keep rel t p :
+  walk keep rel t p Sym -> forall is_root, needed (scan keep is_root rel t) = true.
+Proof. intros Hw. eapply needed_propagates; [exact Hw|reflexivity|reflexivity]. Qed.
+
+Lemma reachable_kept_needed keep rel t p t' :
+  walk keep rel t p t' -> in_keep keep p = true -> forall is_root, needed (scan keep is_root rel t) = true.
+Proof.
+  intros Hw Hk. destruct t' as [sz| |cs].
+  - eapply needed_propagates; [exact Hw| |]; cbn; rewrite Hk; reflexivity.
+  - eapply reachable_symlink_needed; exact Hw.
+  - eapply needed_propagates; [exact Hw| |]; intros; rewrite scan_dir, Hk; reflexivity.
+Qed.
